@@ -317,6 +317,21 @@ def _saver(ctx, cfg):
                          len(st.saved) == 1 and st.saved[0][0] == os.path.join(sv.path, want), why)
         vc.explore(run_names, "ModelSaver/names")
 
+        def run_existing():
+            # history: the folder already holds the files of an earlier run (the same saver serving a second fit, a
+            # resumed run): every scheduled save, the initial one included, is written again for the state at hand
+            sub = os.path.join(tmp, "again")
+            os.makedirs(sub, exist_ok=True)
+            for nm in ("model_initial.pt", "model_2.pt"):
+                open(os.path.join(sub, nm), "wb").close()
+            sv = SB(2, sub, "model_{}.pt", save_initial=True, metadata={"note": "x"}, metadata_only=False)
+            st = State(stop=False)
+            sv.on_train_start(st)
+            sv.on_epoch_end(st, 2)
+            vc.check("ModelSaver/history: files of an earlier run in the folder do not suppress the initial save or a scheduled save",
+                     [s[0] for s in st.saved] == [os.path.join(sv.path, "model_initial.pt"), os.path.join(sv.path, "model_2.pt")], str(st.saved))
+        vc.explore(run_existing, "ModelSaver/existing files")
+
         def run_exc():
             # history: a save through the callback raised (metadata with a reserved key refused by save(), a failing
             # metadata function, a full disk) and the caller caught the error: the same ModelSaver keeps saving afterwards,
